@@ -239,6 +239,12 @@ class P8Formatter(BaseFormatter):
         data = _get_raw_data_from_p8_file(instr, filename=filename)
 
         new_game = Game.make_empty_game(filename=filename)
+        # PICO-8 leaves trailing rows with default contents out of a section.
+        # Remember the defaults so short sections can be completed.
+        defaults = {
+            'gfx': new_game.gfx, 'gff': new_game.gff, 'map': new_game.map,
+            'sfx': new_game.sfx, 'music': new_game.music,
+            'label': Gfx.empty(version=data.version)}
         # Discard empty label until one is found in the file.
         new_game.label = None
         new_game.version = data.version
@@ -275,6 +281,13 @@ class P8Formatter(BaseFormatter):
                     data.section_lines[section], version=data.version)
             else:
                 raise InvalidP8SectionError(section)
+
+            if section in defaults:
+                loaded = getattr(new_game, section)
+                default_data = defaults[section].to_bytes()
+                if len(loaded._data) < len(default_data):
+                    loaded._data = (bytearray(loaded._data) +
+                                    default_data[len(loaded._data):])
 
         return new_game
 
